@@ -116,6 +116,33 @@ theorem C12_refout_group_order_names_only (α β : Ambient) (b b' : Nat) (entrie
     rfl
   rw [key α b, key β b']
 
+/-- The whole interface block exppp prints for a schema — which supplier groups, in which order, and within each group which
+    items in which order — is a function of the item keys, their definition order and the supplier names only: no address
+    enters (grouping key regenerated from pretty_ref.c).  Within a group the items come in the DICTdo (hash) order of the
+    schema's `usedict`/`refdict`, restricted to that supplier. -/
+theorem C12_refout_groups_names_only (α β : Ambient) (b b' : Nat) (entries : List RefEntry) :
+    refoutGroups Generated.RefOut.refoutKey α b entries = refoutGroups Generated.RefOut.refoutKey β b' entries := by
+  have hk : Generated.RefOut.refoutKey = .schemaName := by decide
+  rw [hk]
+  have key : ∀ (γ : Ambient) (c : Nat), refoutGroups .schemaName γ c entries =
+      (ExpressHash.dictOrder ((((ExpressHash.dictOrder (entries.map fun e => (e.item, e))).map (·.2)).zipIdx.map
+          fun (p : RefEntry × Nat) => (p.1.supplier, p.1.supplier)))).map
+        fun g => (g.2, ((((ExpressHash.dictOrder (entries.map fun e => (e.item, e))).map (·.2)).filter
+          fun e => e.supplier == g.1).map (·.printed))) := by
+    intro γ c
+    unfold refoutGroups
+    simp only [refKeyOf]
+    have h := ExpressHash.dictOrder_mapP (fun (p : String × Nat) => p.1)
+      ((((ExpressHash.dictOrder (entries.map fun e => (e.item, e))).map (·.2)).zipIdx).map
+        fun (p : RefEntry × Nat) => (p.1.supplier, (p.1.supplier, γ.addr (c + p.2)))) (fun _ => true)
+    simp only [List.map_map] at h
+    have e1 : ((ExpressHash.mapE fun (p : String × Nat) => p.1) ∘ fun (p : RefEntry × Nat) => (p.1.supplier, (p.1.supplier, γ.addr (c + p.2))))
+            = fun (p : RefEntry × Nat) => (p.1.supplier, p.1.supplier) := rfl
+    rw [e1] at h
+    rw [h, List.map_map]
+    rfl
+  rw [key α b, key β b']
+
 /- (Keyed by the Schema object's address printed with `%p` instead — `RefKey.address`, the seeded variant — the model gives
    `["supplier_b", "supplier_a", "supplier_c"]` under one heap layout and `["supplier_c", "supplier_b", "supplier_a"]` under
    another (`#eval refoutGroupOrder .address …`); not stated as a theorem because the kernel cannot evaluate the UTF-8 byte
